@@ -27,6 +27,11 @@ mod matrix;
 mod ringbuffer;
 mod storage;
 
+#[cfg(all(pendulum_project_ntpd_rs_verif, feature = "std"))]
+#[allow(missing_docs)]
+#[path = "/verif/hooks/statime_algo/mod.rs"]
+pub mod verif;
+
 use core::marker::PhantomData;
 use statime_base::{
     Clock, ClockError, ClockId, DirectedLinkId, Direction, Duration, LeapStatus, LinkId, TAI,
